@@ -9,7 +9,7 @@
     the rounding mode of either operand (float/src/cmp.rs as repaired; the dispatch is regenerated from the source
     into DashuGen.CmpDispatch and proved over the generated definitions in FloatOrdDispatch.v). *)
 From Dashu Require Import Base.Prelude Float.RoundSpec Float.Contract Float.Model Float.ModelProof.
-From Dashu Require Import Float.AddModel Float.DivMulModel.
+From Dashu Require Import Float.AddModel Float.DivMulModel Float.FloatOrdProducers2Model.
 From Dashu Require Import Float.FloatOrdModel Float.FloatOrdProofs Float.FloatOrdTotal Float.FloatOrdProducers.
 Open Scope Z_scope.
 
@@ -48,6 +48,7 @@ Inductive produced2 (B : Z) : frepr -> Prop :=
 | PAddRR du p1 p2 m x y sg : produced2 B (fr (new_pair B (add_ref_ref B du p1 p2 m (fsig x) (fexp x) (fsig y) (fexp y) sg)))
 (* Context::div / inv / sqrt (a panic produces nothing) *)
 | PDiv du dl p m x y a : ctx_div B du dl p m (fsig x) (fexp x) (fsig y) (fexp y) = Ok a -> produced2 B (fr (new_of B a))
+| PDivN du dl p m x y a : ctx_div_n B du dl p m (fsig x) (fexp x) (fsig y) (fexp y) = Ok a -> produced2 B (fr (new_of B a))
 | PInv p m x a : ctx_inv B p m (fsig x) (fexp x) = Ok a -> produced2 B (fr (new_of B a))
 | PSqrt p m x a : ctx_sqrt B p m (fsig x) (fexp x) = Ok a -> produced2 B (fr (new_of B a))
 (* impl Mul / Div for FBig, FBig op primitive *)
@@ -101,6 +102,22 @@ Example produced2_example :
   (exists q, ctx_div 2 (dlen 2) (dlen 2) 4 MHalfEven 1 2 1 1 = Ok q /\ fr (new_of 2 q) = FR 1 1) /\
   a = FR 1 1.
 Proof. cbv zeta. split; [eexists; split; vm_compute; reflexivity | vm_compute; reflexivity]. Qed.
+
+(** what the correspondence run replays (FloatOrdProducers2Model.fprod_asis: the C03 model, then Repr::new) returns a
+    normalised representation for every operation, base, precision, mode, digit estimates and operands *)
+Theorem fprod_asis_normalized B du dl o p m s1 e1 s2 e2 s e f : 2 <= B ->
+  fprod_asis B du dl o p m s1 e1 s2 e2 = Ok (s, e, f) -> nz B (s, e) /\ fwf (FR s e) /\ normalized_ext B (FR s e).
+Proof.
+  intros HB E.
+  assert (N : nz B (s, e)).
+  { assert (K : forall a, fin_new B a = (s, e, f) -> nz B (s, e)).
+    { intros a Ea. unfold fin_new in Ea. pose proof (new_nz B HB (approx_sig a) (approx_exp a)) as H.
+      destruct (Model.normalize B (approx_sig a) (approx_exp a)) as [s' e']. inversion Ea. subst. exact H. }
+    assert (R : forall x, rfin B x = Ok (s, e, f) -> nz B (s, e)).
+    { intros [a|c|c|] Ex; cbn [rfin] in Ex; try discriminate. inversion Ex as [Ea]. apply (K a Ea). }
+    destruct o; cbn [fprod_asis] in E; first [apply (R _ E) | inversion E as [Ea]; eapply K; exact Ea]. }
+  split; [exact N|]. destruct (nz_fin B (s, e) N) as (W & NE & _). split; assumption.
+Qed.
 
 (* ---------------------------------------------------------------- FBig = Repr + Context *)
 
